@@ -33,13 +33,38 @@ type viewObs struct {
 	X    []json.RawMessage `json:"x"`
 }
 
-func contType(c contSpec) reflect.Type {
+// semKind: which container protocol applies. A "field" container is a field of a *struct reached
+// as G.<Field> on every step: an addressable slice ("aslice"), array (like *[n]T) or map.
+func semKind(c contSpec) string {
+	if c.Kind != "field" {
+		return c.Kind
+	}
+	switch ownType(c).Kind() {
+	case reflect.Slice:
+		return "aslice"
+	case reflect.Array:
+		return "parray"
+	}
+	return "map"
+}
+
+// ownType: the Go type of the container as the script reaches it.
+func ownType(c contSpec) reflect.Type {
 	t := m16.TypeOf(c.T)
-	if c.Kind == "pstruct" {
+	switch c.Kind {
+	case "pstruct":
 		return reflect.PointerTo(t)
+	case "field":
+		f, ok := t.FieldByName(c.Field)
+		if !ok {
+			panic("no field " + c.Field + " in " + c.T)
+		}
+		return f.Type
 	}
 	return t
 }
+
+func contType(c contSpec) reflect.Type { return ownType(c) }
 
 func structGV(c contSpec, g m16.GV) m16.GV {
 	if g.K == "ptr" {
@@ -57,11 +82,12 @@ func listGV(g m16.GV) m16.GV {
 
 func isStructCont(c contSpec) bool { return c.Kind == "pstruct" || c.Kind == "vstruct" }
 func isListCont(c contSpec) bool {
-	return c.Kind == "slice" || c.Kind == "parray" || c.Kind == "varray"
+	k := semKind(c)
+	return k == "slice" || k == "aslice" || k == "parray" || k == "varray"
 }
 
 func elemType(c contSpec) reflect.Type {
-	t := m16.TypeOf(c.T)
+	t := ownType(c)
 	if t.Kind() == reflect.Ptr {
 		t = t.Elem()
 	}
@@ -228,7 +254,6 @@ func expectStep(c contSpec, st histState, s step) stepExpect {
 	case isStructCont(c):
 		sg := structGV(c, full)
 		styp := m16.TypeOf(c.T)
-		ptrMethods := c.Kind == "pstruct"
 		switch s.Op {
 		case "set":
 			idx := m16.ResolveField(styp, s.Key)
@@ -281,12 +306,12 @@ func expectStep(c contSpec, st histState, s step) stepExpect {
 			e.asserted = true
 			a, _ := sg.Field("A")
 			b, _ := sg.Field("B")
+			if _, has := ownType(c).MethodByName(s.Method); !has {
+				e.mustLoud, e.unchanged = true, true // calling undefined
+				break
+			}
 			switch s.Method {
 			case "Add":
-				if !ptrMethods {
-					e.mustLoud, e.unchanged = true, true
-					break
-				}
 				if len(s.Args) != 1 {
 					e.mustLoud, e.unchanged = true, true
 					e.classes = append(e.classes, "method-arity")
@@ -336,8 +361,8 @@ func expectStep(c contSpec, st histState, s step) stepExpect {
 			e.hard = true
 		}
 
-	case c.Kind == "map":
-		mt := m16.TypeOf(c.T)
+	case semKind(c) == "map":
+		mt := ownType(c)
 		switch s.Op {
 		case "set", "define":
 			k, status := mapKey(s.Key, mt.Key())
@@ -425,8 +450,10 @@ func expectStep(c contSpec, st histState, s step) stepExpect {
 		l := listGV(full)
 		et := elemType(c)
 		n := len(l.Elems)
-		writable := c.Kind != "varray"
-		growable := c.Kind == "slice"
+		sem := semKind(c)
+		writable := sem != "varray"
+		growable := sem == "slice" || sem == "aslice"
+		addressable := sem == "aslice"
 		switch s.Op {
 		case "set", "define", "push":
 			i, isIdx := arrayIndex(s.Key)
@@ -453,6 +480,9 @@ func expectStep(c contSpec, st histState, s step) stepExpect {
 					return c
 				})
 				e.classes = append(e.classes, "append")
+				if addressable {
+					e.known = append(e.known, m16.KFieldGrow) // the grown slice must reach the Go field
+				}
 				if s.Op == "push" && len(e.accept) > 0 && !e.unchanged {
 					e.result = "n:" + strconv.Itoa(n+1)
 				}
@@ -491,7 +521,27 @@ func expectStep(c contSpec, st histState, s step) stepExpect {
 				e.classes = append(e.classes, "length=:fixed-array")
 			case want == n:
 				e.unchanged, e.silentOK = true, true
-			case want > n && st.pristine:
+			case want < n:
+				c := l.Clone()
+				c.Elems = c.Elems[:want]
+				e.accept = append(e.accept, c)
+				e.classes = append(e.classes, "length=:shrink")
+				e.hard = true
+				if !addressable {
+					e.known = append(e.known, m16.KSetLen)
+					e.unchanged = true
+				}
+			case addressable:
+				// growing an addressable slice: new elements must be zero and reach the Go field
+				c := l.Clone()
+				for len(c.Elems) < want {
+					c.Elems = append(c.Elems, m16.Zero(et))
+				}
+				e.accept = append(e.accept, c)
+				e.known = append(e.known, m16.KFieldGrow)
+				e.asserted = false // within the capacity the Go array's old elements reappear (Go re-slice semantics)
+				e.classes = append(e.classes, "length=:grow")
+			case st.pristine:
 				c := l.Clone()
 				for len(c.Elems) < want {
 					c.Elems = append(c.Elems, m16.Zero(et))
@@ -501,31 +551,43 @@ func expectStep(c contSpec, st histState, s step) stepExpect {
 				e.hard = true
 			default:
 				e.known = append(e.known, m16.KSetLen)
-				if want < n {
-					c := l.Clone()
-					c.Elems = c.Elems[:want]
-					e.accept = append(e.accept, c)
-				} else {
-					e.asserted = false
-				}
-				e.unchanged = true
-				e.classes = append(e.classes, "length=:shrink-or-within-cap")
-			}
-		case "pop":
-			e.asserted = true
-			if growable {
-				e.known = append(e.known, m16.KSetLen)
-				if n > 0 {
-					c := l.Clone()
-					c.Elems = c.Elems[:n-1]
-					e.accept = append(e.accept, c)
-					e.result = goJD(l.Elems[n-1])
-				} else {
-					e.silentOK = true // nothing to pop
-				}
-				e.unchanged = true
-			} else {
 				e.asserted = false
+				e.unchanged = true
+				e.classes = append(e.classes, "length=:grow-within-cap")
+			}
+		case "pop", "shift", "splice":
+			e.asserted = true
+			if !growable {
+				e.asserted = false
+				break
+			}
+			if !addressable {
+				e.known = append(e.known, m16.KSetLen)
+				e.unchanged = true
+			}
+			e.classes = append(e.classes, "shrink:"+s.Op)
+			e.hard = true
+			at := n - 1
+			switch s.Op {
+			case "shift":
+				at = 0
+			case "splice":
+				at = int(s.Val.Float())
+			}
+			if n == 0 || at >= n {
+				e.unchanged, e.silentOK = true, true // nothing to remove
+				if s.Op == "splice" {
+					e.result = "n:0"
+				}
+				break
+			}
+			c := l.Clone()
+			c.Elems = append(c.Elems[:at:at], c.Elems[at+1:]...)
+			e.accept = append(e.accept, c)
+			if s.Op == "splice" {
+				e.result = "n:1"
+			} else {
+				e.result = goJD(l.Elems[at])
 			}
 		case "get":
 			e.asserted, e.unchanged, e.silentOK = true, true, true
@@ -538,7 +600,7 @@ func expectStep(c contSpec, st histState, s step) stepExpect {
 			}
 		case "call":
 			e.asserted, e.unchanged, e.silentOK = true, true, true
-			if m16.TypeOf(c.T).NumMethod() == 0 || len(s.Args) != 0 {
+			if ownType(c).NumMethod() == 0 || len(s.Args) != 0 {
 				e.mustLoud, e.silentOK = true, false
 				break
 			}
@@ -662,8 +724,8 @@ func checkView(c contSpec, o stepObs, expando map[string]string) string {
 			if in != "true" {
 				return fmt.Sprintf("%q in object is %s for an exported field", name, in)
 			}
-		case c.Kind == "map":
-			mt := m16.TypeOf(c.T)
+		case semKind(c) == "map":
+			mt := ownType(c)
 			if ev, present := o.Go.Field(name); present && mt.Key().Kind() == reflect.String {
 				if m := m16.MatchJS(jd, ev, mt.Elem(), nil); m != "" {
 					return fmt.Sprintf("entry %q: %s", name, m)
@@ -694,6 +756,13 @@ func stepText(s step) string {
 	return stepSrc(s)
 }
 
+func stepTextOn(c contSpec, s step) string {
+	if c.Kind == "field" && s.Op != "gomut" && s.Op != "godel" {
+		return stepSrcOn("G."+c.Field, s)
+	}
+	return stepText(s)
+}
+
 func inClass(list []string, id string) bool {
 	for _, x := range list {
 		if x == id {
@@ -713,11 +782,14 @@ func checkHist(hc histCase) harness.Outcome {
 	if c.Kind == "pstruct" || c.Kind == "parray" {
 		st0.g = m16.Ptr(hc.Cont.Init)
 	}
+	if c.Kind == "field" {
+		st0.g, _ = hc.Cont.Init.Field(c.Field)
+	}
 	{
 		// static pre-pass over a nominal state (lengths only matter for the slice length classes)
 		nominal := st0
 		for _, s := range hc.Steps {
-			if s.Op == "pop" && c.Kind != "slice" {
+			if (s.Op == "pop" || s.Op == "shift" || s.Op == "splice") && semKind(c) != "slice" && semKind(c) != "aslice" {
 				continue // Array.prototype.pop on a fixed-length array is outside the domain (ASSUMPTIONS)
 			}
 			e := expectStep(c, nominal, s)
@@ -752,7 +824,7 @@ func checkHist(hc histCase) harness.Outcome {
 	fail := func(i int, msg string) harness.Outcome {
 		at := "initially"
 		if i >= 0 {
-			at = fmt.Sprintf("after step %d `%s`", i+1, stepText(steps[i]))
+			at = fmt.Sprintf("after step %d `%s`", i+1, stepTextOn(c, steps[i]))
 		}
 		out.Fail = fmt.Sprintf("%s %s, %s: %s  [history: %s]", c.Kind, c.T, at, msg, stepsText(steps[:i+1]))
 		return out
@@ -766,7 +838,7 @@ func checkHist(hc histCase) harness.Outcome {
 	if m := checkView(c, *r.Init, st.expando); m != "" {
 		return fail(-1, m)
 	}
-	classes := []string{"container:" + c.Kind + ":" + c.T}
+	classes := []string{"container:" + c.Kind + ":" + c.T + c.Field}
 	for i, s := range steps {
 		o := r.Steps[i]
 		e := expectStep(c, st, s)
